@@ -34,6 +34,8 @@ def run_selection(ctx, cls, f: FunctionInfo, tags: list, ranks: dict, comps: dic
         recv = it.ev(call.func.value, env, 9) if isinstance(call.func, ast.Attribute) else None
         if nm == "evaluate" and isinstance(call.func, ast.Attribute) and len(args) >= 2:
             return args[1]
+        if nm == "key_function" and isinstance(recv, Sym) and recv.tag == "problem" and len(args) == 1 and isinstance(args[0], Obj):
+            return args[0].fields.get("maximizing_aggregate", UNKNOWN)     # Problem.key_function(fitness)
         if nm == "key_function":
             return Sym("KEY")
         if nm == "choice" and len(args) == 1 and isinstance(args[0], list) and isinstance(call.func, ast.Attribute):
@@ -53,7 +55,13 @@ def run_selection(ctx, cls, f: FunctionInfo, tags: list, ranks: dict, comps: dic
             it.trace.append(Effect("call", "shuffle", (before, list(lst)), {}, node=call, fn=it.fn_stack[-1]))
             return lst
         if nm == "get_fitness" and isinstance(recv, Sym) and recv.tag in ranks:
+            if not args and not kwargs or (args and args[0] is None):
+                # Individual.get_fitness() without a problem hands back the fitness stored first: the model's individuals were
+                # evaluated for another problem before, which ranks them the other way round
+                return Obj("Fitness", {"maximizing_aggregate": -ranks.get(recv.tag, 0), "fitness_components": [ranks.get(recv.tag, 0)]})
             return fit_obj(recv.tag)
+        if nm == "key_function" and isinstance(recv, Sym) and recv.tag == "problem" and len(args) == 1 and isinstance(args[0], Obj):
+            return args[0].fields.get("maximizing_aggregate", UNKNOWN)     # Problem.key_function(fitness)
         if nm == "number_of_objectives":
             return n_cases
         if nm == "array" and len(args) == 1 and isinstance(args[0], list):
